@@ -633,28 +633,8 @@ impl ToplevelDefinition {
 
     pub(crate) fn apply_tagging_environment(&mut self, environment: &TaggingEnvironment) {
         if let (env, ToplevelDefinition::Type(ty)) = (environment, self) {
-            ty.tag = ty.tag.as_ref().map(|t| AsnTag {
-                environment: env + &t.environment,
-                tag_class: t.tag_class,
-                id: t.id,
-            });
-            match &mut ty.ty {
-                ASN1Type::Sequence(s) | ASN1Type::Set(s) => s.members.iter_mut().for_each(|m| {
-                    m.tag = m.tag.as_ref().map(|t| AsnTag {
-                        environment: env + &t.environment,
-                        tag_class: t.tag_class,
-                        id: t.id,
-                    });
-                }),
-                ASN1Type::Choice(c) => c.options.iter_mut().for_each(|o| {
-                    o.tag = o.tag.as_ref().map(|t| AsnTag {
-                        environment: env + &t.environment,
-                        tag_class: t.tag_class,
-                        id: t.id,
-                    });
-                }),
-                _ => (),
-            }
+            ty.tag = ty.tag.as_ref().map(|t| t.in_environment(env));
+            ty.ty.apply_tagging_environment(env);
         }
     }
 
@@ -833,6 +813,29 @@ pub enum ASN1Type {
 }
 
 impl ASN1Type {
+    /// Applies the tagging default of the enclosing module to the tags of all components,
+    /// alternatives and elements of `self`, at every nesting depth (X.680 §31.2.7).
+    fn apply_tagging_environment(&mut self, environment: &TaggingEnvironment) {
+        match self {
+            ASN1Type::Sequence(s) | ASN1Type::Set(s) => s.members.iter_mut().for_each(|m| {
+                m.tag = m.tag.as_ref().map(|t| t.in_environment(environment));
+                m.ty.apply_tagging_environment(environment);
+            }),
+            ASN1Type::Choice(c) => c.options.iter_mut().for_each(|o| {
+                o.tag = o.tag.as_ref().map(|t| t.in_environment(environment));
+                o.ty.apply_tagging_environment(environment);
+            }),
+            ASN1Type::SequenceOf(s) | ASN1Type::SetOf(s) => {
+                s.element_tag = s
+                    .element_tag
+                    .as_ref()
+                    .map(|t| t.in_environment(environment));
+                s.element_type.apply_tagging_environment(environment);
+            }
+            _ => (),
+        }
+    }
+
     pub fn as_str(&self) -> Cow<'_, str> {
         match self {
             ASN1Type::Null => Cow::Borrowed(NULL),
@@ -1293,6 +1296,17 @@ pub struct AsnTag {
     pub environment: TaggingEnvironment,
     pub tag_class: TagClass,
     pub id: u64,
+}
+
+impl AsnTag {
+    /// Combines the tag's own tagging keyword with the default of the module it is declared in.
+    fn in_environment(&self, environment: &TaggingEnvironment) -> AsnTag {
+        AsnTag {
+            environment: environment + &self.environment,
+            tag_class: self.tag_class,
+            id: self.id,
+        }
+    }
 }
 
 impl From<((Option<&str>, u64), Option<TaggingEnvironment>)> for AsnTag {
